@@ -57,7 +57,7 @@ int b32_5to8(int in)
 int b32_8to5(int in)
 {
 	base32_reverse_init();
-	return rev32[in];
+	return rev32[(unsigned char) in];
 }
 
 /*
@@ -148,7 +148,7 @@ static int base32_encode(char *buf, size_t *buflen, const void *data, size_t siz
 	return iout;
 }
 
-#define REV32(x) rev32[(int) (x)]
+#define REV32(x) rev32[(unsigned char) (x)]
 
 /*
  * Fills *buf with max. *buflen bytes, decoded from slen chars in *str.
